@@ -23,10 +23,17 @@ EXPLANATION = (
     "of the settings, is representation-blind (tuple->list, numbers->float, "
     "dict->sorted items), encodes all five parameter attributes, and "
     "rejects unknown types; segment names are normalised before storing; "
+    "no branch encodes a mapping in iteration order (every .items()/"
+    ".values()/.keys() of the argument sits under sorted()); "
     "(R3) no hash()/id()/repr()/set-order/clock/RNG in the call graph of "
     "_hash and iteration over the settings is in definition or sorted "
     "order; (R4) sequence encodings are self-delimiting; (R5) hashed "
-    "settings objects are not edited after hashing.")
+    "settings objects are not edited after hashing; (R6) the partial hash "
+    "of range_x under the plateau search keys on the same bound the fit "
+    "uses; (R7) the stored fit_properties['hash'] is dropped whenever a "
+    "setting changes: every path of FitProperties.__setitem__ that stores "
+    "a settings key passes reset() or carries an exact-equality fact of "
+    "stored and new value.")
 NOT_DECIDED = [
     "that different byte strings give different MD5 digests",
     "numpy integer scalars (not int subclasses) reach the encoder's "
